@@ -11,7 +11,7 @@ ID = 'C01'
 LEVEL = 'exploration'
 TECHNIQUE = 'bounded-exhaustive words + derivations with bounded deviations, structural invariants on every returned tree'
 
-SPECS = {'quick': dict(R=5, L=3, A=3, Z=3, CR=4), 'thorough': dict(R=6, L=4, A=4, Z=4, CR=5)}
+SPECS = {'quick': dict(R=5, L=3, A=3, Z=3, CR=4, E=3), 'thorough': dict(R=6, L=4, A=4, Z=4, CR=5, E=4)}
 
 
 def plan(tier):
